@@ -9,17 +9,29 @@ def main(argv):
     base = int(os.environ.get('VERIF_SEED', '1'))
     mod = load_prop(prop)
     sys.stdout = open(os.devnull, 'w')
+    import tempfile
+    os.chdir(tempfile.mkdtemp(prefix='verifw-'))
     out = sys.stderr
     stats = {}
+    summary = {}
+    examples = {}
     for i in range(first, first + count):
         seed = core.derive_seed(base, prop, batch, i)
         scen = mod.generate(seed, batch)
         res = run_one(mod, scen)
         core.bump(stats, res['verdict'] + ':' + str(res.get('invariant')))
-        if res['verdict'] != 'ok':
+        if res['verdict'] != 'ok' and '-s' in argv:
+            dd = res.get('detail') or {}
+            k = '%s %s op=%s fresh=%s %s %s' % (res.get('invariant'), dd.get('kind'), str(dd.get('op')).split('/')[0],
+                                              str(dd.get('fresh_exc'))[:60], str(dd.get('subject_exc'))[:60], str(dd.get('where'))[:0])
+            core.bump(summary, k)
+            examples.setdefault(k, (i, dd.get('history'), str(dd.get('where'))[:150]))
+        elif res['verdict'] != 'ok':
             print(i, seed, res['verdict'], res.get('invariant'), res.get('known'), json.dumps(res.get('detail'))[:700], file=out)
             if '-v' in argv:
                 print('   ', json.dumps(scen)[:1500], file=out)
+    for k in sorted(summary, key=lambda k: -summary[k]):
+        print('%4d  %s   e.g. #%s hist=%s %s' % ((summary[k], k) + examples[k]), file=out)
     print(stats, file=out)
 
 if __name__ == '__main__':
